@@ -1,7 +1,8 @@
 # C07 — multiplexed streams stay isolated and ordered; close never overtakes data.
 # proof: Props/C07.v (Model/Mux.v extends Model/Wakeup.v; Proofs/MuxProofs.v).  Isolation / no duplication
 # and per-transport FIFO hold for all schedules and fault patterns; the full order statement is REFUTED
-# (two vm_compute witnesses); the partial theorem covers streams that use one transport.
+# (vm_compute witnesses inside the unpublished-wake-up window); the partial theorems cover every run without
+# that window (all streams, Proofs/MuxOrderProofs.v) and every stream that uses one transport.
 # tie: T — real client/server session pairs, keyed messages on 2-6 streams, induced shm exhaustion,
 # generated sequential scenarios (replayed on the model, delivery sequences compared) and concurrent
 # bursts; directed replays of the three ordering races (a: public callback API, b: the instrumented
@@ -12,7 +13,7 @@ from vlib import core, gen, sched
 PROP = "C07"
 META = {
     "technique": "Coq proof: invariants over all schedules x fault patterns of a two-transport multiplexing model built on the C05 wake-up model (per-transport FIFO, item validity/uniqueness, end mark last); full order statement refuted by two vm_compute witness schedules; tie: real session pairs driven by generated scenarios whose histories are replayed on the model, plus directed replays of the witness schedules on the real code",
-    "level_text": "C07_isolation and C07_transport_fifo hold for any number of streams, all programs, all exhaustion/queue-full patterns and all schedules. C07_order_full is refuted (C07_refuted, witnesses: close element overtakes fallback data; fallback event overtakes a wake-up published before it is written); C07_partial_single_transport proves order and end-mark placement for every schedule in which the stream uses one transport only. All three ordering races (the two witnesses and the callback-mode variant) are reproduced on the unchanged real code and reported under stable signatures.",
+    "level_text": "C07_isolation and C07_transport_fifo hold for any number of streams, all programs, all exhaustion/queue-full patterns and all schedules. C07_order_full is refuted (C07_refuted; witnesses: a fallback event - or the close event of a stream in fallback state - overtakes shared-memory data whose wake-up was published by markWorking but not yet written). C07_partial_no_unpublished_wakeup_window proves order and end-mark placement for ALL streams, including those that switch from the queue to the socket, in every run that does not contain that window; C07_partial_single_transport proves them unconditionally for streams that use one transport. The former defect close-overtakes-fallback-data is repaired (close() sends the notification through the socket when the stream is in fallback state); its deterministic blocking-OnNewStream scenario stays as a regression scenario. The remaining ordering races (b: unpublished wake-up, c: callback mode) are reproduced on the real code and reported under stable signatures.",
     "level_note": "Trusted: coqc kernel; the model treats queue.put/pop as atomic (C04) and one direction of a session at a time; one writer thread per stream; timers of waitForSend/Flush retries are not modelled; real-session scenarios are sampled; the callback-mode race (c) is outside the model (it lives in Stream.fillDataToReadBuffer's goroutine) and is demonstrated on the implementation only.",
 }
 
@@ -63,6 +64,9 @@ def model_case(c, d):
             else:
                 return None   # a failure the one-directional model does not describe (e.g. peer closed)
         else:
+            if h["via"] == "unknown":
+                return None
+            # qfull = the put failed; a stream in fallback state closes through the socket by itself (model)
             progs[i].append("OClose %s" % ("true" if h["via"] == "sock" else "false"))
         if kind == "sequential":
             acts += ["ADo %d" % i, "AStep WSend 6", "AStep WCons 90"]
